@@ -126,4 +126,46 @@ def mraReq (bytes align maxNode : Nat) : Req :=
 /-- the leaf that served a successful routing -/
 def Routed.served (x : Routed) : Option LeafCall := x.calls.find? (·.ok)
 
+/-! ### reported maxima of a composition (C18: "the reported maxima are true upper bounds") -/
+
+/-- `max_node_size()`, `max_array_size()`, `max_alignment()` as `allocator_traits` reports them -/
+structure Maxima where
+  node : Nat
+  array : Nat
+  align : Nat
+deriving Repr, DecidableEq
+
+def Maxima.sup (a b : Maxima) : Maxima := ⟨max a.node b.node, max a.array b.array, max a.align b.align⟩
+
+/-- `detail::max_alignment`: what the traits report for a class without a `max_alignment()` member -/
+def defaultMaxAlign : Nat := 16
+
+/-- the figures `allocator_traits<E>` reports for a composition, from the figures `lm i` the leaves' members report.
+A leaf without array members has no `max_array_size()`: the traits answer `max_node_size()`. `fallback_allocator` reports the
+larger figure of its two parts; wrappers and storages forward; `binary_segregator` reports its fallback's figures and (its member
+is spelled `max_alignemnt`) the traits' default alignment. -/
+def maxima (lm : Nat → Maxima) : AExpr → Maxima
+  | .leaf i ha => ⟨(lm i).node, if ha then (lm i).array else (lm i).node, (lm i).align⟩
+  | .aligned _ a => maxima lm a
+  | .tracked a => maxima lm a
+  | .fallback d f => (maxima lm d).sup (maxima lm f)
+  | .segregator _ _ f => ⟨(maxima lm f).node, (maxima lm f).array, defaultMaxAlign⟩
+  | .storage a => maxima lm a
+  | .anyRef a => maxima lm a
+
+/-- no `binary_segregator` inside -/
+def SegFree : AExpr → Prop
+  | .leaf _ _ => True
+  | .aligned _ a => SegFree a
+  | .tracked a => SegFree a
+  | .fallback d f => SegFree d ∧ SegFree f
+  | .segregator _ _ _ => False
+  | .storage a => SegFree a
+  | .anyRef a => SegFree a
+
+/-- the figures the harness leaves report (`harness/subj_compose.cpp: LeafBase`) -/
+def harnessLeafMaxima (i : Nat) : Maxima := ⟨48 + 16 * i, 200000 + 1000 * i, 4096 / 2 ^ i⟩
+
+def Maxima.str (m : Maxima) : String := s!"node={m.node} array={m.array} align={m.align}"
+
 end MemVerif.Model
